@@ -54,7 +54,7 @@ func init() {
 			var s Step
 			switch t.Intn(10) {
 			case 0:
-				s = st("client_credentials", c, 0, "scope", "photos")
+				s = st("client_credentials", c, 0, "scope", t.Pick([]string{"photos", "photos", "", ""}), "aud", t.Pick([]string{"", "", "https://api.sim/v1"}))
 			case 1:
 				s = st("password", c, 0, "scope", "offline photos")
 			case 2:
